@@ -168,7 +168,9 @@ class Sched:
         self.count[i] += 1
         if self.record:
             c = frame.f_code
-            self.trace[i].append((c.co_filename, frame.f_lineno, c.co_name))
+            b1 = frame.f_back
+            b2 = b1.f_back if b1 is not None else None
+            self.trace[i].append((c.co_filename, frame.f_lineno, c.co_name, b1.f_code.co_name if b1 is not None else "", b2.f_code.co_name if b2 is not None else ""))
         if self.preempts and self.preempts[0] == (i, self.count[i]):
             self.preempts.pop(0)
             j = self._next_enabled(i)
